@@ -78,9 +78,9 @@ const char* SkipToMatchingQuote(const char* s) {
   assert((*s == '\'') || (*s == '"'));
   char quote = s[0];
   ++s;
-  while (*s != quote)
+  while (*s && *s != quote)
     ++s;
-  return ++s;
+  return s;   // the closing quote, or the terminating NUL if the quote is not closed
 }
 
 struct Deleter {
@@ -272,7 +272,10 @@ std::string OptionHelper<std::string>::Parse(const char *&s, bool splitString) {
   if (quoted(s))
   {
     s = SkipToMatchingQuote(s);
-    return std::string(start + 1, s - start - 2);
+    std::string value(start + 1, s - start - 1);
+    if (*s)
+      ++s;    // skip the closing quote
+    return value;
   }
   else
   {
